@@ -6,43 +6,6 @@ import GdVerif.Lemmas.Gs1Query
 namespace Gd.Gs1
 open Gd Gd.Gs Gd.Gs1.Spec
 
-/-! ### lookups through filters -/
-
-theorem mapGet_filter_key (m : Map Bytes) (q : Bytes → Bool) (k : Bytes) :
-    mapGet (m.filter (fun e => q e.1)) k = if q k then mapGet m k else none := by
-  induction m with
-  | nil => simp
-  | cons p r ih =>
-    rw [List.filter_cons]
-    by_cases hp : p.1 = k
-    · subst hp
-      by_cases hq : q p.1 = true
-      · simp [hq, mapGet_cons]
-      · have hq' : q p.1 = false := by simpa using hq
-        simp only [hq', Bool.false_eq_true, ↓reduceIte]
-        rw [ih]
-        simp [hq']
-    · have hpk : (p.1 == k) = false := by simpa using hp
-      by_cases hq : q p.1 = true
-      · simp only [hq, ↓reduceIte, mapGet_cons, hpk, Bool.false_eq_true]
-        exact ih
-      · have hq' : q p.1 = false := by simpa using hq
-        simp only [hq', Bool.false_eq_true, ↓reduceIte, mapGet_cons, hpk]
-        exact ih
-
-theorem mapGet_mapRemove_ne (m : Map Bytes) {k' k : Bytes} (h : k' ≠ k) : mapGet (mapRemove m k') k = mapGet m k := by
-  have := mapGet_filter_key m (fun x => x != k') k
-  unfold mapRemove
-  rw [this]
-  have : (k != k') = true := by simpa using (Ne.symm h)
-  simp [this]
-
-theorem mapGet_mapRemove_self (m : Map Bytes) (k : Bytes) : mapGet (mapRemove m k) k = none := by
-  have := mapGet_filter_key m (fun x => x != k) k
-  unfold mapRemove
-  rw [this]
-  simp
-
 /-! ### the server variables as a table -/
 
 /-- every key the server may use with the text it sends for it, if any -/
@@ -53,17 +16,9 @@ def skeleton (y : Style) (st : State) : List (Bytes × Option Bytes) :=
    (bs "AdminEMail", st.adminContact), (bs (if y.adminShort then "admin" else "AdminName"), st.adminName),
    (bs "minplayers", st.playersMinimum.map dec), (bs "tournament", st.tournament.map (boolText y.boolUpper))]
 
-def present (sk : List (Bytes × Option Bytes)) : List (Bytes × Bytes) :=
-  sk.flatMap fun e => match e.2 with
-    | some v => [(e.1, v)]
-    | none => []
-
 theorem optPair_eq {α : Type} (k : Bytes) (f : α → Bytes) (o : Option α) :
     optPair k f o = present [(k, o.map f)] := by
   cases o <;> rfl
-
-theorem present_append (a b : List (Bytes × Option Bytes)) : present (a ++ b) = present a ++ present b := by
-  simp [present]
 
 theorem serverPairs_eq (y : Style) (st : State) : serverPairs y st = present (skeleton y st) := by
   unfold serverPairs
@@ -75,46 +30,6 @@ theorem serverPairs_eq (y : Style) (st : State) : serverPairs y st = present (sk
         (bs "password", some (pwText y.pwStyle st.hasPassword))] := rfl
   rw [h6, ← present_append, ← present_append, ← present_append, ← present_append, ← present_append]
   simp [skeleton]
-
-/-- lookup in the table (first match) -/
-def tableGet : List (Bytes × Option Bytes) → Bytes → Option Bytes
-  | [], _ => none
-  | (k', o) :: r, k => if k' == k then o else tableGet r k
-
-theorem mapGet_present (sk : List (Bytes × Option Bytes)) (hd : (sk.map (·.1)).Nodup) (k : Bytes) :
-    mapGet (present sk) k = tableGet sk k := by
-  induction sk with
-  | nil => rfl
-  | cons e r ih =>
-    obtain ⟨k', o⟩ := e
-    have hd' := List.nodup_cons.mp hd
-    have hrest := ih hd'.2
-    show mapGet (present ([(k', o)] ++ r)) k = _
-    rw [present_append]
-    simp only [tableGet]
-    by_cases hk : k' = k
-    · subst hk
-      have hnot : ¬ HasKey (present r) k' := by
-        rintro ⟨p, hp, hpk⟩
-        simp only [present, List.mem_flatMap] at hp
-        obtain ⟨e, he, hpe⟩ := hp
-        apply hd'.1
-        refine List.mem_map.mpr ⟨e, he, ?_⟩
-        cases ho : e.2 with
-        | none => simp [ho] at hpe
-        | some v => simp only [ho, List.mem_singleton] at hpe; rw [hpe] at hpk; exact hpk
-      cases o with
-      | none =>
-        simp only [present, List.flatMap_cons, List.flatMap_nil, List.append_nil, List.nil_append, BEq.rfl, ↓reduceIte]
-        exact mapGet_none_of_not_hasKey hnot
-      | some v =>
-        simp [present, mapGet_cons]
-    · have hkk : (k' == k) = false := by simpa using hk
-      simp only [hkk, Bool.false_eq_true, ↓reduceIte]
-      rw [← hrest]
-      cases o with
-      | none => simp [present]
-      | some v => simp [present, mapGet_cons, hkk]
 
 theorem skeleton_keys (y : Style) (st : State) : (skeleton y st).map (·.1) = serverKeyList y.adminShort := by
   simp [skeleton, serverKeyList]
